@@ -51,14 +51,21 @@ def _dist_ext():
             ".reciprocal": lambda recv, a, k: to_poly(recv).inverse(),
             ".pdf": lambda recv, a, k: fn("normpdf", *[to_poly(x) for x in a], *[to_poly(v) for _, v in sorted(k.items())]),
             ".cdf": lambda recv, a, k: (fn("normcdf", *[to_poly(x) for x in a], *[to_poly(v) for _, v in sorted(k.items())]) if (not isinstance(recv, Obj) or recv.name == "norm") else fn("cdf", Poly.atom(recv.name), *[to_poly(x) for x in a])),
-            "_BasicPoisson": ctor("_BasicPoisson"), "_BasicNormal": ctor("_BasicNormal")}
+            "_BasicPoisson": ctor("_BasicPoisson"), "_BasicNormal": ctor("_BasicNormal"),
+            # anything else a hand-written density may use stays an opaque function of its arguments
+            **{nm: (lambda a, k, nm=nm: fn(nm, *[to_poly(x) for x in a], *[to_poly(v) if not isinstance(v, str) else Poly.atom(v) for _, v in sorted(k.items())])) for nm in ("clamp", "clip", "clip_by_value", "maximum", "minimum", "nan_to_num", "relu", "softplus")},
+            "finfo": lambda a, k: Obj("finfo"), "iinfo": lambda a, k: Obj("iinfo"),
+            "lgamma": lambda a, k: fn("gammaln", to_poly(a[0])),
+            "zeros_like": lambda a, k: Poly(), "ones_like": lambda a, k: Poly.const(1)}
 
 
 def _eval_method(cls, mname, argnames):
     m = cls.methods[mname]
     env = {p: Poly.atom(p) for p in argnames}
     env.update({"norm": Obj("norm"), "poisson": Obj("poissonlib")})
-    it = Interp(env, {}, {}, cls_name=cls.name, externals=_dist_ext())
+    # representatives: a generic interior point (n, lam, sigma > 0) decides guards such as `lam == 0`
+    region = {"n": Fraction(3), "lam": Fraction(5, 2), "x": Fraction(1, 3), "mu": Fraction(1, 7), "sigma": Fraction(9, 8), "rate": Fraction(5, 2)}
+    it = Interp(env, {}, region, methods={k: v.node for k, v in cls.methods.items() if k in PROB_METHODS}, cls_name=cls.name, externals=_dist_ext())
     return it.run(A.strip_docstring(m.node.body))
 
 
@@ -89,7 +96,8 @@ def run(ctx):
             P = _eval_method(c, "poisson", ["n", "lam"])
             D = _eval_method(c, "poisson_dist", ["rate"])
             Lp, Pp = to_poly(L), to_poly(P)
-            if Pp == fn("exp", Lp):
+            exact_forms = (fn("exp", fn("log_prob", Poly.atom("Poisson[lam]"), n)), fn("exp", ref_pois))  # library log-mass and reference form are the same function (ASSUMPTIONS)
+            if Pp == fn("exp", Lp) or (Pp in exact_forms and fn("exp", Lp) in exact_forms):
                 ctx.holds(r2, f"{site}.poisson", "== exp(poisson_logpdf)")
             else:
                 ctx.violated(r2, c.methods["poisson"], "poisson", "poisson(n, lam) is not the exponential of the poisson_logpdf term", expected=f"exp<{Lp}>", found=str(Pp))
@@ -103,8 +111,10 @@ def run(ctx):
                 want = fn("log_prob", Poly.atom("Poisson[lam]"), n)
                 if Lp == want:
                     ctx.holds(r1, f"{site}.poisson_logpdf", "Poisson(lam).log_prob(n)")
+                elif Lp == ref_pois:
+                    ctx.holds(r1, f"{site}.poisson_logpdf", f"reference form {ref_pois}")
                 else:
-                    ctx.violated(r1, c.methods["poisson_logpdf"], "poisson_logpdf", "the Poisson log-mass is not Poisson(rate=lam).log_prob(n)", expected=str(want), found=str(Lp))
+                    ctx.violated(r1, c.methods["poisson_logpdf"], "poisson_logpdf", "the Poisson log-mass is neither the library's Poisson(rate=lam).log_prob(n) nor the reference form xlogy(n, lam) - lam - lgamma(n + 1)", expected=f"{want}  |  {ref_pois}", found=str(Lp))
                 if isinstance(D, Obj) and D.name == "Poisson[rate]":
                     ctx.holds(r1, f"{site}.poisson_dist", "same library class, rate in the role of lam")
                 else:
